@@ -253,6 +253,77 @@ func makes() {
 	probe("conv/arrptr-exact", func() string { x := (*[3]Int)(s); return itoa(int64(x[2])) })
 	probe("conv/arr-zero-from-nil", func() string { var ns []Int; x := [0]Int(ns); p := (*[0]Int)(ns); return itoa(int64(len(x))) + btoa(p == nil) })
 	probe("conv/arr-one-from-nil", func() string { var ns []Int; x := [1]Int(ns); return itoa(int64(len(x))) })
+	{
+		full := []Int{1, 2, 3}
+		var nilS []Int
+		srcs := []struct {
+			name string
+			s    []Int
+		}{{"nil", nilS}, {"nil-resliced", nilS[:0]}, {"empty", full[:0]}, {"empty-cap0", full[:0:0]}, {"empty-end", full[3:]}, {"len1", full[:1]}, {"len2-off1", full[1:]}, {"len3", full}, {"len2-cap2", full[:2:2]}}
+		for _, src := range srcs {
+			src := src
+			probe("conv/Int/arr0/"+src.name, func() string { t("a"); x := [0]Int(src.s); t("b"); return itoa(int64(len(x))) })
+			probe("conv/Int/ptr0/"+src.name, func() string { t("a"); x := (*[0]Int)(src.s); t("b"); if x == nil { return "nilptr" }; return itoa(int64(len(x))) })
+			probe("conv/Int/arr1/"+src.name, func() string { t("a"); x := [1]Int(src.s); t("b"); return itoa(int64(len(x))) })
+			probe("conv/Int/ptr1/"+src.name, func() string { t("a"); x := (*[1]Int)(src.s); t("b"); if x == nil { return "nilptr" }; return itoa(int64(len(x))) })
+			probe("conv/Int/arr2/"+src.name, func() string { t("a"); x := [2]Int(src.s); t("b"); return itoa(int64(len(x))) })
+			probe("conv/Int/ptr2/"+src.name, func() string { t("a"); x := (*[2]Int)(src.s); t("b"); if x == nil { return "nilptr" }; return itoa(int64(len(x))) })
+			probe("conv/Int/arr3/"+src.name, func() string { t("a"); x := [3]Int(src.s); t("b"); return itoa(int64(len(x))) })
+			probe("conv/Int/ptr3/"+src.name, func() string { t("a"); x := (*[3]Int)(src.s); t("b"); if x == nil { return "nilptr" }; return itoa(int64(len(x))) })
+			probe("conv/Int/arr4/"+src.name, func() string { t("a"); x := [4]Int(src.s); t("b"); return itoa(int64(len(x))) })
+			probe("conv/Int/ptr4/"+src.name, func() string { t("a"); x := (*[4]Int)(src.s); t("b"); if x == nil { return "nilptr" }; return itoa(int64(len(x))) })
+		}
+	}
+	{
+		full := []string{"a", "b", "c"}
+		var nilS []string
+		srcs := []struct {
+			name string
+			s    []string
+		}{{"nil", nilS}, {"nil-resliced", nilS[:0]}, {"empty", full[:0]}, {"empty-cap0", full[:0:0]}, {"empty-end", full[3:]}, {"len1", full[:1]}, {"len2-off1", full[1:]}, {"len3", full}, {"len2-cap2", full[:2:2]}}
+		for _, src := range srcs {
+			src := src
+			probe("conv/string/arr0/"+src.name, func() string { t("a"); x := [0]string(src.s); t("b"); return itoa(int64(len(x))) })
+			probe("conv/string/ptr0/"+src.name, func() string { t("a"); x := (*[0]string)(src.s); t("b"); if x == nil { return "nilptr" }; return itoa(int64(len(x))) })
+			probe("conv/string/arr1/"+src.name, func() string { t("a"); x := [1]string(src.s); t("b"); return itoa(int64(len(x))) })
+			if len(src.s) < 1 || (len(src.s) == 1 && cap(src.s) == 1 && src.name == "len3") { // GopherJS documents that it refuses to convert a non-numeric subslice to an array pointer
+				probe("conv/string/ptr1/"+src.name, func() string { t("a"); x := (*[1]string)(src.s); t("b"); if x == nil { return "nilptr" }; return itoa(int64(len(x))) })
+			}
+			probe("conv/string/arr2/"+src.name, func() string { t("a"); x := [2]string(src.s); t("b"); return itoa(int64(len(x))) })
+			if len(src.s) < 2 || (len(src.s) == 2 && cap(src.s) == 2 && src.name == "len3") { // GopherJS documents that it refuses to convert a non-numeric subslice to an array pointer
+				probe("conv/string/ptr2/"+src.name, func() string { t("a"); x := (*[2]string)(src.s); t("b"); if x == nil { return "nilptr" }; return itoa(int64(len(x))) })
+			}
+			probe("conv/string/arr3/"+src.name, func() string { t("a"); x := [3]string(src.s); t("b"); return itoa(int64(len(x))) })
+			if len(src.s) < 3 || (len(src.s) == 3 && cap(src.s) == 3 && src.name == "len3") { // GopherJS documents that it refuses to convert a non-numeric subslice to an array pointer
+				probe("conv/string/ptr3/"+src.name, func() string { t("a"); x := (*[3]string)(src.s); t("b"); if x == nil { return "nilptr" }; return itoa(int64(len(x))) })
+			}
+			probe("conv/string/arr4/"+src.name, func() string { t("a"); x := [4]string(src.s); t("b"); return itoa(int64(len(x))) })
+			if len(src.s) < 4 || (len(src.s) == 4 && cap(src.s) == 4 && src.name == "len3") { // GopherJS documents that it refuses to convert a non-numeric subslice to an array pointer
+				probe("conv/string/ptr4/"+src.name, func() string { t("a"); x := (*[4]string)(src.s); t("b"); if x == nil { return "nilptr" }; return itoa(int64(len(x))) })
+			}
+		}
+	}
+	{
+		full := []uint8{1, 2, 3}
+		var nilS []uint8
+		srcs := []struct {
+			name string
+			s    []uint8
+		}{{"nil", nilS}, {"nil-resliced", nilS[:0]}, {"empty", full[:0]}, {"empty-cap0", full[:0:0]}, {"empty-end", full[3:]}, {"len1", full[:1]}, {"len2-off1", full[1:]}, {"len3", full}, {"len2-cap2", full[:2:2]}}
+		for _, src := range srcs {
+			src := src
+			probe("conv/uint8/arr0/"+src.name, func() string { t("a"); x := [0]uint8(src.s); t("b"); return itoa(int64(len(x))) })
+			probe("conv/uint8/ptr0/"+src.name, func() string { t("a"); x := (*[0]uint8)(src.s); t("b"); if x == nil { return "nilptr" }; return itoa(int64(len(x))) })
+			probe("conv/uint8/arr1/"+src.name, func() string { t("a"); x := [1]uint8(src.s); t("b"); return itoa(int64(len(x))) })
+			probe("conv/uint8/ptr1/"+src.name, func() string { t("a"); x := (*[1]uint8)(src.s); t("b"); if x == nil { return "nilptr" }; return itoa(int64(len(x))) })
+			probe("conv/uint8/arr2/"+src.name, func() string { t("a"); x := [2]uint8(src.s); t("b"); return itoa(int64(len(x))) })
+			probe("conv/uint8/ptr2/"+src.name, func() string { t("a"); x := (*[2]uint8)(src.s); t("b"); if x == nil { return "nilptr" }; return itoa(int64(len(x))) })
+			probe("conv/uint8/arr3/"+src.name, func() string { t("a"); x := [3]uint8(src.s); t("b"); return itoa(int64(len(x))) })
+			probe("conv/uint8/ptr3/"+src.name, func() string { t("a"); x := (*[3]uint8)(src.s); t("b"); if x == nil { return "nilptr" }; return itoa(int64(len(x))) })
+			probe("conv/uint8/arr4/"+src.name, func() string { t("a"); x := [4]uint8(src.s); t("b"); return itoa(int64(len(x))) })
+			probe("conv/uint8/ptr4/"+src.name, func() string { t("a"); x := (*[4]uint8)(src.s); t("b"); if x == nil { return "nilptr" }; return itoa(int64(len(x))) })
+		}
+	}
 	str := []string{"a", "b"}
 	probe("conv/arr-string-longer", func() string { x := [3]string(str); return x[0] })
 }
